@@ -42,6 +42,15 @@ CHECKS = {
         "association-list models with symbolic keys; validity predicate: indices pairwise distinct; name/pretty views over a 10-value "
         "index domain.",
         ref="§4 C02"),
+    "C12": dict(
+        text="For ALL byte strings of length <=3/4 over the full 0..255 alphabet and length <=5/6 over the syntax-relevant alphabet the "
+        "solver proves string_token_to_bytes(value_to_string(b)) == b, that the literal lexes as exactly one STRING token ending at "
+        "its last character, and that it is printable ASCII; for every literal text of <=6/8 arbitrary Unicode characters accepted by "
+        "the STRING rule the decoded bytes equal an independent decoder of the documented escapes (malformed \\x/\\u => ValueError).",
+        note="Trusted: z3; symx; repr(bytes) model and the STRING lexer model (both validated exhaustively against CPython / the real "
+        "regex of the loaded grammar each run). Undefined escapes are outside the property. Embedding in statements through the real "
+        "lark parser is not solver-decided (covered structurally by C10/C11).",
+        ref="§4 C12"),
     "C15": dict(
         text="iter_find_needle: for every haystack (<=8/12 fully symbolic bytes), needle (1..3 / 1..4,7 symbolic bytes), read-buffer size "
         "1..5,8 / 1..9, start position and search limit, the reported offsets are proved to be exactly the true occurrences (ascending, "
